@@ -4,11 +4,11 @@ import math
 
 import numpy as np
 
-from common import R, Rvec, Cx, fl, cfl
+from common import R, Rvec, Cx, fl, cfl, ModelError
 
 from common import wiring_pre_build as pre_build  # noqa: E402,F401
 
-LEAN_MODULES = ["PyomaVerif.Props.C07", "PyomaVerif.Props.C07Bell", "PyomaVerif.Mutants.C07", "PyomaVerif.Props.WiringMpe"]
+LEAN_MODULES = ["PyomaVerif.Props.C07", "PyomaVerif.Props.C07Bell", "PyomaVerif.Mutants.C07", "PyomaVerif.Props.WiringMpe", "PyomaVerif.Props.C07All"]
 THEOREMS = [
     # call-site wiring of the class layer, regenerated from /repo on every run (translate_wiring.py)
     "PV.WiringMpe.C07_efdd_mpe_wiring",
@@ -44,6 +44,24 @@ THEOREMS = [
     "PV.C07Bell.C07_fsdd_complex_shape_witness",
     "PV.Mutants.C07.sqrt_bell_not_proportional",
     "PV.Mutants.C07.no_factor_two_fails",
+    # depth round: EFDD_mpe as one composed model (Model/EfddAll.lean, Props/C07All.lean)
+    "PV.C07All.C07_svalsvec_scale",
+    "PV.C07All.C07_first_stage_scale",
+    "PV.C07All.C07_one_scale",
+    "PV.C07All.C07_scale_all",
+    "PV.C07All.C07_scale_estimates",
+    "PV.C07All.C07_idxOf",
+    "PV.C07All.C07_idxOf_recovers",
+    "PV.C07All.C07_idxOf_window",
+    "PV.C07All.C07_idxOf_leaves_window_witness",
+    "PV.C07All.C07_selectFit",
+    "PV.C07All.C07_post_ok_iff",
+    "PV.C07All.C07_post_fit",
+    "PV.C07All.C07_fd_spacing",
+    "PV.C07All.C07_fd_equispaced",
+    "PV.C07All.C07_one_spec",
+    "PV.C07All.C07_mpe_spec",
+    "PV.C07All.exRun_ok",
 ]
 RULE = (
     "correspondence: fdd.SDOF_bellandMS vs Efdd.sdofBell with np.linalg.svd wrapped and its recorded output handed to the "
@@ -58,19 +76,30 @@ RULE = (
     "oracle stream on the real SDOF_bellandMS with Sy = sum_m s_m conj(phi_m) phi_m^T, SVD by the real SD_svalsvec: selected "
     "lines == lines of the band where the reference mode is among the cm largest weights (lines where its weight ties with "
     "another within 1e-6 of the line's largest are skipped), values == s_ref (EFDD) / |c|^2 s_ref (FSDD, real shapes) within "
-    "1e-10 of the line's largest weight, bell(c Sy) == c bell(Sy), bell unchanged under an orthogonal change of channel basis"
+    "1e-10 of the line's largest weight, bell(c Sy) == c bell(Sy), bell unchanged under an orthogonal change of channel basis. "
+    "depth round (Props/C07All): the whole of fdd.EFDD_mpe (1-2 selected frequencies, both methods, all methodSy branches, cm 1..2) vs the composed "
+    "model Efdd.efddMpe, with every np.linalg.svd / np.sqrt / np.log / curve_fit call recorded and handed to the model as the library routines "
+    "(svd looked up by its ARGUMENT, exact match with Sy[:, :, k]; sqrt/log by nearest recorded argument, the model's own arguments compared with "
+    "the recorded ones at 1e-9; the inverse FFT is the model's explicit transform): first-stage lines and shapes, Phi, np.where(SDOFbell), fitted "
+    "extremum indices exact; delta equal, lam 1e-13, xi 1e-12, fd 1e-12, fn 1e-11; the arguments of the inner calls (FDD_mpe DF=DF1, "
+    "SDOF_bellandMS dt/sel/phi_FDD/method/cm/MAClim/DF=DF2, ifft n=5nf ortho, curve_fit x=arange(npmax)); exception class on malformed requests"
 )
 EXTRA_TRUSTED = [
     "np.linalg.svd, np.fft.ifft (linear), np.log, np.sqrt, scipy curve_fit (closed form Σkδ/Σk² compared on every case)",
     "the accuracy tolerances 2.5 % / 15 % / MAC 0.999 are validated by search on the real code, not proved",
     "C07Bell: the SVD enters as recorded (stored vector = non-zero multiple of a mode's shape, stored value = square root of its weight); "
     "that LAPACK returns this for a structured spectrum away from ties is validated by the structured-spectrum oracle",
+    "C07All.C07_scale_all: contracts of the library routines as hypotheses (ScaleContract: svd(c A) = (U, c S), sqrt(c s) = r sqrt(s), r^2 = c; "
+    "inverse FFT homogeneous for positive factors - proved for the modelled transform); jointly satisfiable (example over the reals); "
+    "the floating-point routines honour them to rounding only (oracle scale-variance-* at 1e-9)",
 ]
 ASSUMPTIONS = [
     "exact ties between correlation samples and exact zeros in the normalised correlation are outside the compared domain",
     "oracle domain as in the property: fn/fs in [0.04,0.25], xi in [2,5] %, >=4 lines per half-power bandwidth, >=30 periods in the half record, DF2 in [4,8] bandwidths, DF1 = max(2 lines, one bandwidth)",
     "structured-spectrum oracle: FSDD values are asserted for real mode shapes only (the domain of C07); for complex shapes the code's "
     "phi^H Sy phi pairs without conjugation (C07_bell_structured_coded, C07_fsdd_complex_shape_witness) - deviations are counted, not reported",
+    "composed stream: cases with a correlation sample within 1e-13 of zero in the half record, or a bell of fewer than 3 lines (undamped periodic "
+    "correlation, extrema tie to rounding) are skipped and counted; Efdd.efddMpe returns 'outside-model' for a NaN first-stage shape / zero correlation",
 ]
 
 
@@ -368,6 +397,255 @@ def _distinct(x):
     return len(np.unique(x)) == len(x)
 
 
+# ----------------------------------------------------------------------------- the whole of EFDD_mpe vs Efdd.efddMpe (Model/EfddAll.lean)
+class _Spies:
+    """records every call EFDD_mpe makes to np.linalg.svd / np.sqrt / np.log / np.fft.ifft / curve_fit / FDD_mpe / SDOF_bellandMS
+    (all pass through unchanged)"""
+
+    def __init__(self, fdd):
+        self.fdd = fdd
+        self.svd, self.sqrt, self.log, self.ifft, self.fit, self.fdd_calls, self.bell_calls = [], [], [], [], [], [], []
+
+    def __enter__(self):
+        fdd = self.fdd
+        self.saved = (np.linalg.svd, np.sqrt, np.log, np.fft.ifft, fdd.curve_fit, fdd.FDD_mpe, fdd.SDOF_bellandMS)
+        r_svd, r_sqrt, r_log, r_ifft, r_cf, r_fdd, r_bell = self.saved
+
+        def svd(a, *args, **kw):
+            out = r_svd(a, *args, **kw)
+            self.svd.append((np.array(a), args, dict(kw), np.array(out[0]), np.array(out[1]), np.array(out[2])))
+            return out
+
+        def sqrt(x, *args, **kw):
+            out = r_sqrt(x, *args, **kw)
+            if not args and not kw and np.size(x) <= 64 and np.isrealobj(x):
+                self.sqrt += list(zip(np.ravel(np.asarray(x, float)).tolist(), np.ravel(np.asarray(out, float)).tolist()))
+            return out
+
+        def log(x, *args, **kw):
+            out = r_log(x, *args, **kw)
+            if not args and not kw and np.size(x) <= 64 and np.isrealobj(x):
+                self.log += list(zip(np.ravel(np.asarray(x, float)).tolist(), np.ravel(np.asarray(out, float)).tolist()))
+            return out
+
+        def ifft(a, *args, **kw):
+            out = r_ifft(a, *args, **kw)
+            self.ifft.append((np.array(a), args, dict(kw), np.array(out)))
+            return out
+
+        def cf(f, x, y, *args, **kw):
+            out = r_cf(f, x, y, *args, **kw)
+            self.fit.append((np.array(x), np.array(y, float), float(out[0][0]), args, dict(kw)))
+            return out
+
+        def fdd_mpe(*args, **kw):
+            out = r_fdd(*args, **kw)
+            self.fdd_calls.append((args, dict(kw), out))
+            return out
+
+        def bell(*args, **kw):
+            out = r_bell(*args, **kw)
+            self.bell_calls.append((args, dict(kw), out))
+            return out
+
+        np.linalg.svd, np.sqrt, np.log, np.fft.ifft, fdd.curve_fit, fdd.FDD_mpe, fdd.SDOF_bellandMS = svd, sqrt, log, ifft, cf, fdd_mpe, bell
+        return self
+
+    def __exit__(self, *exc):
+        fdd = self.fdd
+        np.linalg.svd, np.sqrt, np.log, np.fft.ifft, fdd.curve_fit, fdd.FDD_mpe, fdd.SDOF_bellandMS = self.saved
+        return False
+
+
+def _svd_table(calls):
+    """recorded np.linalg.svd calls as {A, U, S} (one entry per distinct argument; a repeated argument must have given the same output)"""
+    tab, seen, consistent = [], {}, True
+    for a, args, kw, U, S, Vh in calls:
+        key = a.tobytes() + bytes(str(a.shape), "ascii")
+        if key in seen:
+            U0, S0 = seen[key]
+            consistent = consistent and np.array_equal(U0, U) and np.array_equal(S0, S)
+            continue
+        seen[key] = (U, S)
+        tab.append({"A": [[Cx(z) for z in row] for row in a], "U": [[Cx(z) for z in row] for row in U], "S": Rvec(S)})
+    return tab, consistent
+
+
+def _pairs(lst):
+    out, seen = [], set()
+    for a, v in lst:
+        if a in seen or not (math.isfinite(a) and math.isfinite(v)):
+            continue
+        seen.add(a)
+        out.append([R(a), R(v)])
+    return out
+
+
+def _all_case(ctx, k, malformed=False):
+    fdd = _fdd()
+    rng = ctx.rng
+    g = ctx.nprng()
+    nch = rng.randint(2, 4)
+    nf = rng.choice([33, 49, 65])
+    fs = rng.choice([20.0, 100.0, 512.0, 37.5])
+    dt = 1 / fs
+    nmodes = rng.choice([1, 1, 2])
+    fnrs = [rng.uniform(0.14, 0.2), rng.uniform(0.26, 0.34)][:nmodes]
+    if nmodes == 1 and rng.random() < 0.5:
+        fnrs = [rng.uniform(0.14, 0.32)]
+    xis = [rng.uniform(0.012, 0.04) for _ in fnrs]
+    freq, Sy, _ = _sdof_sy(g, nch, nf, fs, fnrs[0], xis[0], floor=10.0 ** rng.uniform(-9, -5),
+                           second=(fnrs[1], xis[1]) if nmodes == 2 else None)
+    if rng.random() < 0.3:
+        Sy = Sy * 10.0 ** rng.uniform(-12, 12)
+    method = rng.choice(["FSDD", "EFDD"])
+    msy = rng.choice(["per", "cor", "per", "paer"])
+    sppk = rng.choice([3, 3, 0, 1, 4])
+    npmax = rng.choice([2, 3, 5, 8])
+    cm = rng.choice([1, 1, 1, 2])
+    MAClim = rng.choice([0.85, rng.uniform(0.5, 0.97)])
+    line = fs / (2 * (nf - 1))
+    sel = [f * fs * rng.uniform(0.97, 1.03) for f in fnrs]
+    if nmodes == 2 and rng.random() < 0.5:
+        sel = sel[::-1]  # the caller's order, not sorted
+    DF1 = max(2 * line, rng.uniform(1, 3) * 2 * xis[0] * fnrs[0] * fs)
+    DF2 = rng.uniform(3, 8) * 2 * max(xis) * max(fnrs) * fs + 3 * line
+    kind = "valid"
+    if malformed:
+        kind = rng.choice(["npmax_large", "DF2_tiny", "DF1_tiny", "npmax_zero", "method_other"])
+        if kind == "npmax_large":
+            npmax = 150
+        elif kind == "DF2_tiny":
+            DF2 = line * rng.uniform(0.01, 0.2)
+        elif kind == "DF1_tiny":
+            DF1 = line * rng.uniform(0.01, 0.2)
+        elif kind == "npmax_zero":
+            npmax = 0
+        else:
+            method = "other"
+    nI = 5 * nf
+    tw = np.exp(2j * np.pi * np.arange(nI) / nI)
+    rs = 1 / np.sqrt(nI)
+    err = None
+    with _Spies(fdd) as sp:
+        try:
+            Fn, Xi, Phi, PP = fdd.EFDD_mpe(Sy, freq, dt, list(sel), msy, method=method, DF1=DF1, DF2=DF2, cm=cm, MAClim=MAClim, sppk=sppk, npmax=npmax)
+        except (IndexError, ValueError) as e:
+            err = type(e).__name__
+    inp = {"kind": kind, "method": method, "methodSy": msy, "nch": nch, "nf": nf, "dt": dt, "sel": sel, "DF1": DF1, "DF2": DF2, "cm": cm,
+           "MAClim": MAClim, "sppk": sppk, "npmax": npmax, "Sy_re": Sy.real.tolist(), "Sy_im": Sy.imag.tolist()}
+    key = (kind, method, msy, nmodes, cm, err)
+    svd_tab, consistent = _svd_table(sp.svd)
+    # zero correlation samples / zero maxima (numpy NaNs) are outside the compared domain
+    for a_in, _, _, out_in in sp.ifft:
+        h = out_in.real[: len(out_in) // 2]
+        if not np.all(np.isfinite(out_in.real)) or np.abs(h).min() <= 1e-13 * np.abs(out_in.real).max():
+            ctx.skipped += 1
+            ctx.count("all_skipped_zero_sample")
+            return
+    try:
+      out = ctx.model(
+        "efdd_mpe_all", method=method, method_sy=msy, nch=nch, nf=nf,
+        Sy=[[[Cx(Sy[i, j, l]) for l in range(nf)] for j in range(nch)] for i in range(nch)],
+        freq=Rvec(freq), dt=R(dt), sel=Rvec(sel), DF1=R(DF1), DF2=R(DF2), cm=cm, MAClim=R(MAClim), sppk=sppk, npmax=npmax,
+        svd=svd_tab, sqrt=_pairs(sp.sqrt), log=_pairs(sp.log), pi=R(math.pi), tw=[Cx(z) for z in tw], rs=R(rs),
+        fit=[{"y": Rvec(y), "m": R(m)} for (_, y, m, _, _) in sp.fit if np.all(np.isfinite(y)) and math.isfinite(m)],
+      )
+    except ModelError as e:  # e.g. the code decomposed another matrix than Sy[:, :, k]
+        ctx.corr("fdd.EFDD_mpe[composed]", False, inp, str(e), err or "returned", key)
+        return
+    if err is not None or "error" in out:
+        ok = err is not None and "error" in out and out["error"].startswith(err)
+        ctx.corr("fdd.EFDD_mpe[composed]", bool(ok), inp, out.get("error"), err, key)
+        ctx.count(f"all_error_{kind}_{err}")
+        return
+    # a band of one or two lines gives an undamped (periodic) correlation: its extrema tie to rounding (outside the compared domain)
+    if any(len(np.ravel(pp_[4])) < 3 for pp_ in PP):
+        ctx.skipped += 1
+        ctx.count("all_skipped_periodic_correlation")
+        return
+    flags = {}
+    # --- the calls the code made, against the composition the model prescribes
+    n_sel = len(sel)
+    flags["svd_calls"] = consistent and len(sp.svd) == nf * (1 + n_sel) and all(c[1] == () and c[2] == {} for c in sp.svd) and len(svd_tab) <= nf
+    fc = sp.fdd_calls
+    flags["first_stage_call"] = len(fc) == 1 and len(fc[0][0]) == 4 and list(fc[0][1]) == ["DF"] and fc[0][1]["DF"] == DF1 and list(fc[0][0][3]) == list(sel)
+    first = out["first"]
+    Fn1, Phi1 = fc[0][2]
+    flags["first_stage"] = (
+        isinstance(first, list) and len(first) == n_sel
+        and all(fl(m_["fn"]) == float(Fn1[i]) and freq[m_["idx"]] == float(Fn1[i]) for i, m_ in enumerate(first))
+        and all(m_["phi"] is not None and np.abs(np.array([cfl(z) for z in m_["phi"]]) - Phi1[:, i]).max() <= 1e-12 for i, m_ in enumerate(first))
+    )
+    bc = sp.bell_calls
+    flags["bell_calls"] = len(bc) == n_sel and all(
+        len(c[0]) == 4 and c[0][1] == dt and c[0][2] == sel[i] and np.array_equal(c[0][3], Phi1[:, i])
+        and c[1] == {"method": method, "cm": cm, "MAClim": MAClim, "DF": DF2} for i, c in enumerate(bc))
+    flags["ifft_calls"] = len(sp.ifft) == n_sel and all(c[1] == () and c[2] == {"n": nI, "axis": 0, "norm": "ortho"} and c[0].shape == (nf,) for c in sp.ifft)
+    flags["fit_calls"] = len(sp.fit) == n_sel and all(np.array_equal(c[0], np.arange(npmax)) and c[3] == () and c[4] == {} for c in sp.fit)
+    # --- results
+    modes = out["modes"]
+    flags["count"] = len(modes) == n_sel and np.shape(Fn) == (n_sel, 1) or np.shape(Fn) == (n_sel,)
+    Fn_, Xi_ = np.ravel(Fn), np.ravel(Xi)
+    worst = {"xi": 0.0, "fn": 0.0, "ratio": 0.0}
+    for i, mo in enumerate(modes[:n_sel]):
+        pp = PP[i]
+        f = {}
+        f["phi"] = np.abs(np.array([cfl(z) for z in mo["phi"]]) - np.asarray(Phi)[:, i]).max() <= 1e-12
+        f["idSV"] = mo["idSV"] == np.ravel(pp[4]).tolist()
+        f["fit_idx"] = mo["fit_idx"] == np.asarray(pp[6]).tolist()
+        # arguments at which the model evaluates log vs the arguments the code passed to np.log
+        ratios = np.array([fl(v) for v in mo["ratios"]])
+        delta_code = np.asarray(pp[8], float)
+        largs = np.array([a for a, _ in sp.log])
+        rr = max((np.abs(largs - r).min() / r for r in ratios), default=0.0)
+        worst["ratio"] = max(worst["ratio"], float(rr))
+        f["log_args"] = rr <= 1e-9
+        dm = np.array([fl(v) for v in mo["delta"]])
+        f["delta"] = dm.shape == delta_code.shape and np.array_equal(dm, delta_code)
+        lam_code = float(np.ravel(pp[7])[0])
+        f["lam"] = abs(fl(mo["lam"]) - lam_code) <= 1e-13 * max(abs(lam_code), 1e-300)
+        a12 = out["sqrt_args"][i]
+        sargs = np.array([a for a, _ in sp.sqrt])
+        f["sqrt_args"] = all(np.abs(sargs - fl(a12[k_])).min() <= 1e-12 * abs(fl(a12[k_])) for k_ in ("arg1", "arg2") if not math.isnan(Fn_[i]) or k_ == "arg1")
+        ex = abs(fl(mo["xi"]) - Xi_[i]) / abs(Xi_[i])
+        f["xi"] = ex <= 1e-12
+        time_code, idx_code = pp[1], np.asarray(pp[6])
+        if math.isnan(Fn_[i]):
+            f["fn"] = mo["fn"] is None
+        else:
+            ef = abs(fl(mo["fn"]) - Fn_[i]) / abs(Fn_[i])
+            f["fn"] = ef <= 1e-11
+            worst["fn"] = max(worst["fn"], float(ef))
+            fd_code = 1 / np.mean(np.diff(time_code[idx_code]) * 2)
+            f["fd"] = abs(fl(mo["fd"]) - fd_code) <= 1e-12 * abs(fd_code)
+        worst["xi"] = max(worst["xi"], float(ex))
+        flags[f"mode{i}"] = all(bool(v) for v in f.values())
+        if not flags[f"mode{i}"]:
+            flags[f"mode{i}_detail"] = {k_: bool(v) for k_, v in f.items()}
+        ctx.count("all_band_lines_selected", len(mo["idSV"]))
+        ctx.count("all_crossings", len(mo["zc"]))
+    ok = all(bool(v) for k_, v in flags.items() if not k_.endswith("_detail"))
+    ctx.corr(
+        "fdd.EFDD_mpe[composed]", bool(ok), inp,
+        {"flags": {k_: (v if isinstance(v, dict) else bool(v)) for k_, v in flags.items()}, "fn": [m_["fn"] and fl(m_["fn"]) for m_ in modes], "xi": [fl(m_["xi"]) for m_ in modes],
+         "fit_idx": [m_["fit_idx"] for m_ in modes]},
+        {"fn": Fn_.tolist(), "xi": Xi_.tolist(), "fit_idx": [np.asarray(PP[i][6]).tolist() for i in range(n_sel)]}, key,
+    )
+    # the recorded SVDs satisfy the contract the faithfulness / scale theorems assume
+    a, _, _, U, S, Vh = sp.svd[rng.randrange(len(sp.svd))]
+    sc = max(np.abs(a).max(), 1e-300)
+    ctx.contract("svd_unitary_U", np.abs(U.conj().T @ U - np.eye(len(U))).max(), 1e-12, "U^H U = I")
+    ctx.contract("svd_unitary_V", np.abs(Vh @ Vh.conj().T - np.eye(len(Vh))).max(), 1e-12, "V^H V = I")
+    ctx.contract("svd_decomposition", np.abs((U * S) @ Vh - a).max() / sc, 1e-12, "A = U diag(S) V^H")
+    ctx.contract("svd_sorted_nonneg", 0.0 if (np.all(S >= 0) and np.all(np.diff(S) <= 0)) else 1.0, 0.5, "S >= 0, non-increasing")
+    ctx.count(f"all_{method}")
+    ctx.count(f"all_methodSy_{msy}")
+    ctx.count(f"all_modes_{n_sel}")
+    for k_, v in worst.items():
+        ctx.dist[f"all_worst_{k_}_1e-16"] = max(ctx.dist.get(f"all_worst_{k_}_1e-16", 0), int(v * 1e16))
+
+
 def correspondence(ctx):
     for _ in range(ctx.n(30, 300)):
         _bell_case(ctx)
@@ -375,6 +653,8 @@ def correspondence(ctx):
         _bell_case(ctx, struct=True)
     for k in range(ctx.n(60, 600)):
         _post_case(ctx, k)
+    for k in range(ctx.n(10, 120)):
+        _all_case(ctx, k, malformed=(k % 5 == 4))
 
 
 # ----------------------------------------------------------------------------- oracle
